@@ -130,18 +130,18 @@ class C18(Check):
     def budget(self, tier):
         q = tier == 'quick'
         return {
-            'gc_logsep': 200 if q else 1600,
-            'gc_poles': 100 if q else 800,
-            'gc_seam': 100 if q else 800,
-            'gc_coincident': 60 if q else 320,
-            'gc_antipodal': 100 if q else 800,
-            'gc_cardinal': 20 if q else 96,
-            'munu_stripes': 91 * 2 if q else 91 * 16,
-            'munu_circle': 91 * 2 if q else 91 * 8,
-            'ang_roundtrip': 120 if q else 960,
-            'ang_int': 24 if q else 192,
-            'vec_roundtrip': 90 if q else 640,
-            'vec_f64norm': 36 if q else 320,
+            'gc_logsep': 200 if q else 8000,
+            'gc_poles': 100 if q else 4000,
+            'gc_seam': 100 if q else 4000,
+            'gc_coincident': 60 if q else 1600,
+            'gc_antipodal': 100 if q else 4000,
+            'gc_cardinal': 20 if q else 480,
+            'munu_stripes': 91 * 2 if q else 91 * 48,
+            'munu_circle': 91 * 2 if q else 91 * 32,
+            'ang_roundtrip': 120 if q else 4800,
+            'ang_int': 24 if q else 960,
+            'vec_roundtrip': 90 if q else 3200,
+            'vec_f64norm': 36 if q else 1600,
         }
 
     # ------------------------------------------------------------------ generators
